@@ -53,7 +53,7 @@ type adapter struct {
 type callFn = func(ctx context.Context) (any, error)
 
 var adapters = []*adapter{
-	{name: "attestationdata-best", kind: "best", invalid: []string{"nildata", "niltarget", "badepoch", "otherepoch"}, maxQ: 4, dims: 2, mk: mkAttData, build: buildADBest},
+	{name: "attestationdata-best", kind: "best", invalid: []string{"nildata", "niltarget", "badepoch", "otherepoch"}, maxQ: 4, dims: 3, mk: mkAttData, build: buildADBest},
 	{name: "attestationdata-majority", kind: "majority", threshold: true, invalid: []string{"nildata", "niltarget", "badepoch", "otherepoch"}, maxQ: 2, dims: 2, mk: mkAttData, build: buildADMajority},
 	{name: "attestationdata-first", kind: "first", invalid: []string{"nildata"}, maxQ: 4, dims: 2, mk: mkAttData, build: buildADFirst},
 	{name: "aggregateattestation-best", kind: "best", invalid: []string{"nildata"}, maxQ: 5, dims: 1, mk: mkAggregate, build: buildAABest},
@@ -119,6 +119,15 @@ func mkAttData(h *harness, c content) any {
 	case c.Dim == 0:
 		// higher justified checkpoint, everything else equal
 		d.Source.Epoch = e - 6 + phase0.Epoch(c.Q)
+	case c.Dim == 2:
+		// a chain whose last slots of the previous epoch and first slots of this one are empty: the lowest variant's
+		// head is the target checkpoint block itself (head root = target root), which sits two slots BEFORE the
+		// epoch's first slot; the higher variants have seen later blocks (all known to the cache)
+		first := h.chain.EpochOf(h.slot) * h.chain.SlotsPerEpoch
+		d.BeaconBlockRoot = headRoot(first - 2 + uint64(c.Q))
+		if c.Q == 0 {
+			d.Target.Root = d.BeaconBlockRoot
+		}
 	default:
 		// more recent head block (all known to the cache), everything else equal
 		d.BeaconBlockRoot = headRoot(h.slot - 5 + uint64(c.Q))
@@ -326,6 +335,11 @@ func newCacheStub(h *harness) *cacheStub {
 	for s := h.slot - 8; s <= h.slot; s++ {
 		c.m[headRoot(s)] = phase0.Slot(s)
 	}
+	if first := h.chain.EpochOf(h.slot) * h.chain.SlotsPerEpoch; first >= 2 {
+		for s := first - 2; s <= first+4; s++ {
+			c.m[headRoot(s)] = phase0.Slot(s)
+		}
+	}
 	// beacon block roots handed out by mkRoot: higher quality = later slot; quality 0 is unknown to the cache
 	for call := 0; call < 2; call++ {
 		for prov := 0; prov < 5; prov++ {
@@ -338,8 +352,13 @@ func newCacheStub(h *harness) *cacheStub {
 	return c
 }
 
-func (c *cacheStub) BlockRootToSlot(_ context.Context, root phase0.Root) (phase0.Slot, error) {
+func (c *cacheStub) BlockRootToSlot(ctx context.Context, root phase0.Root) (phase0.Slot, error) {
 	simrt.Yield("c07/cache")
+	// no block event was seen for any of these roots: each lookup is a request to a node, which ends with its context
+	if err := ctx.Err(); err != nil {
+		simrt.Probe("cache-lookup-with-ended-context")
+		return 0, err
+	}
 	if s, ok := c.m[root]; ok {
 		return s, nil
 	}
